@@ -151,6 +151,24 @@ def classify(clause, lines):
     return "unclassified"
 
 
+# Harmless rewrites of the anchored code on which the whole flow (harness linked against the mutated object, correspondence,
+# spec on the implementation's trace, verdict) was run and exits 0 with no VIOLATION line (patches: corpus/C05/negative_controls/*.diff,
+# documentation only; runner: _work/scratch/c05/negctl/run.py NAME DIFF).  The seven seeded changes of _work/scratch/c05/mutants/ are
+# still caught afterwards.
+NEGATIVE_CONTROLS = [
+    "n1_cleanup_delay: cleanup timer at end + 0.05 s instead of end + 0.1 s (times are whole seconds; only 'strictly after' is compared)",
+    "n2_start_timer_interval / n2b: start timer every 1 s (30 s) instead of 5 s - when the periodic start timer is due is an oracle input "
+    "(T <now> <fired>, taken from a sentinel downtime), not part of the model or the specification",
+    "n3_trigger_and_count_order: Checkable::TriggerDowntimes walks the std::set in reverse, GetDowntimeDepth via std::count_if "
+    "(events are compared as per-operation counts per downtime, never as sequences)",
+    "n4_refactor_trigger_and_start: TriggerDowntime with renamed locals, positive guard, extracted CascadeTrigger helper, statements "
+    "reordered; Start() registers parent/child before the checkable registry; static timer renamed, timers created in the other order",
+    "n5_message_texts: different exception / log texts (removal refusal, 'Could not create/remove downtime', log lines)",
+    "n6_guard_spellings: IsInEffect / IsExpired / CanBeTriggered / NotifyDowntimeEnd with equivalent guards (negated forms, ternary, merged ifs)",
+    "n7_extra_bookkeeping_and_loop_form: an extra per-downtime trigger counter map, index loop with continue-guards in DowntimesStartTimerHandler",
+]
+
+
 class C05(Check):
     prop = "C05"
     required_theorems = ["in_downtime_iff", "depth_eq_count", "trigger_write_once", "trigger_write_once_run",
